@@ -230,6 +230,7 @@ pub struct Scenario {
     /// every read request carries the same context bytes (C08's precondition dropped: only the
     /// no-panic property is judged on reads there)
     pub same_read_ctx: bool,
+    pub empty_first_ctx: bool,
     /// LEASE: these nodes (leader first) run in lock-step (LockTick / LockDeliver only)
     pub lock_majority: Vec<u8>,
     /// MEMBER: also offer one MsgPropose carrying [normal, conf change]
@@ -271,6 +272,7 @@ impl Scenario {
             api_probe: false,
             group_commit: false,
             same_read_ctx: false,
+            empty_first_ctx: false,
             lock_majority: vec![],
             mix_proposals: false,
             down_forever: vec![],
